@@ -1109,7 +1109,8 @@ class SeqTheory(BaseTheory):
         pr = ex.fv.prover
 
         def valid(f):
-            return ex.path.cached(lambda: pr.prove(ex.st.pc, f, timeout_ms=3000)[0] == "discharged")
+            # quantifier-free over pairs/keys/values: decided without the sequence axioms
+            return self.qf_valid(ex, f)
 
         if isinstance(elt, TupV):
             try:
